@@ -195,6 +195,8 @@ def _run_one(job):
                 pass
             out, err = p.communicate()
         job.rc = p.returncode
+        if job.rc == 124:
+            job.timed_out = True  # the harness's own scenario watchdog (300 s for one scenario): same handling as our timeout
     except OSError as e:
         raise HarnessFailure("cannot run %s: %s" % (job.exe, e))
     job.wall = time.time() - t0
